@@ -37,7 +37,10 @@ class C13(Check):
     theorems = ("C13_activation_exactly_once", "C13_propagation_terminates", "C13_announced_iff",
                 "C13_payload_star", "C13_payload_same_or_disjoint", "C13_payload_iff_no_relay_lacks_output",
                 "C13_each_output_once", "C13_payload_refuted", "C13_payload_refuted_binomial",
-                "C13_bit_mapping_bijective", "C13_unique_parent")
+                "C13_bit_mapping_bijective", "C13_unique_parent", "C13_child_predicates_are_the_code")
+    gen = ({"file": "parsec/remote_dep.c", "fns": ["remote_dep_bcast_star_child", "remote_dep_bcast_chainpipeline_child",
+                                                   "remote_dep_bcast_binomial_child"],
+            "out": "theories/Gen/Gen_bcast.v", "fuel": "40%nat"},)
     comp = "bcast"
     extract_file = "theories/Extract/Extract_Bcast.v"
     extracted = ("bcast",)
